@@ -38,6 +38,12 @@ pub mod mpsc {
                 r matches Poll::Ready(None) ==> final(self).received() == old(self).received() && final(self).closed(),
                 r is Pending ==> final(self).received() == old(self).received() && final(self).closed() == old(self).closed(),
         { unimplemented!() }
+
+        /// tokio `close()`: no further message can be sent; what is already queued can still be received
+        #[verifier::external_body]
+        pub fn close(&mut self)
+            ensures final(self).received() == old(self).received(),
+        { unimplemented!() }
     }
 
     /// `alive()` = the receiving loop still exists (fixed during one verified call)
